@@ -31,6 +31,10 @@ pub fn install_quiet_panic_hook() {
 			"<non-string panic>".to_string()
 		};
 		let loc = info.location().map(|l| format!(" at {}:{}", l.file(), l.line())).unwrap_or_default();
+		// the machinery's own failures are never silent (they end a run as inconclusive)
+		if msg.starts_with("zoo:") || msg.starts_with("model:") || msg.starts_with("bridge:") || msg.starts_with("harness:") {
+			eprintln!("harness panic: {msg}{loc}");
+		}
 		LAST_PANIC.with(|p| *p.borrow_mut() = Some(format!("{msg}{loc}")));
 	}));
 }
